@@ -501,5 +501,6 @@ Definition section_order : list bytes := [s_tools; s_targets; s_default; s_nodes
 
 Definition is_crash (r : load_result) : bool := match r with LoadCrash => true | _ => false end.
 Definition is_ok (r : load_result) : bool := match r with LoadOk _ => true | _ => false end.
+Definition doc_count (docs : list ynode) : nat := length docs.
 Definition errors_of (r : load_result) : list N :=
   match r with LoadOk s | LoadError s => rev (st_errs s) | LoadCrash => [] end.
